@@ -301,6 +301,11 @@ impl Exec {
             self.stats.accepted_puts += 1;
             Ok(St::Accepted)
         } else {
+            if observed == St::Accepted {
+                // accepted although the evictions did not make enough room: the limit is exceeded (C01) and admission did not
+                // follow its rule (C06)
+                return Err(Failure::new("C01", "C01/accepted-put-over-limit", format!("put(k={}, w={}) was accepted after {} evictions although only {} are free of the limit {}: the total weight now exceeds the limit", k, weight, victims, self.model.free(), limit)).with_also(vec!["C06".to_string()]));
+            }
             ensure!(stopped, "C06", "C06/gave-up-without-reason", "a put of weight {} was refused with {} free although the last sampled victim was not hotter and keys remain", weight, self.model.free());
             if victims >= 1 { self.stats.partial_evict_then_reject += 1; }
             self.model.stats.keys_rejected += 1;
@@ -520,6 +525,14 @@ impl Exec {
                 let now = Duration::from_nanos(self.clock.get());
                 self.advance_to(now)?;
                 self.quiescent_checks("C10")
+            }
+            Op::Fill { first, count, w, ttl } => {
+                for offset in 0..*count {
+                    let k = 100u8.saturating_add(((*first as u16 + offset as u16) % 128) as u8);
+                    if self.model.held.contains_key(&k) { continue; }
+                    self.exec_op(&Op::Put { k, w: Some(WSel::Abs(*w as i64)), ttl: ttl.clone() })?;
+                }
+                Ok(())
             }
             Op::StepWorker => Ok(()),
             Op::Stall { burst } => self.exec_stall(burst),
